@@ -65,6 +65,21 @@ _unary('numpy.ceil', sym.ceil)
 _unary('numpy.isreal', lambda x: True, kind='bool')
 
 
+_plain_sqrt = EXT['numpy.sqrt']
+
+
+@model('numpy.sqrt')
+def np_sqrt(interp, st, fr, args, kw):
+    x = _arr(interp, st, args[0])
+    if isinstance(x, Quantity) and x.unit.dims:
+        try:
+            unit = units.unit_sqrt(x.unit)
+        except ValueError:
+            raise Raised('UnitTypeError', 'sqrt')
+        return Quantity(_plain_sqrt(interp, st, fr, [x.value], kw), unit)
+    return _plain_sqrt(interp, st, fr, args, kw)
+
+
 @model('numpy.abs')
 def np_abs(interp, st, fr, args, kw):
     x = _arr(interp, st, args[0])
